@@ -1,4 +1,5 @@
 SPECIFICATION GSpec
 CONSTANTS Devs = {}
-          Cases <- GThorough
+          Cases <- GSel
+          Family = "GThorough"
 INVARIANTS Emit VisitedExact DepthShortest FetchedExact LocalExact ProvidedExact ResultRight HandlerCallsRight
